@@ -12,6 +12,7 @@ logic of C11 plus `history_finds_ancestor`; network timing is not modelled, and 
 implementation "eventually" is observed as "within a deadline".
 -/
 import Verif.Lemmas.Sync
+import Verif.Lemmas.SyncRound
 
 namespace Verif.C12
 open Verif.Sync
@@ -141,7 +142,82 @@ answers the very first request) -/
 theorem history_head (a : List Nat) : (history a).head? = some (a.getD 0 0) := by
   simp [history, List.range_succ_eq_map, histOffset]
 
+/-! ### the concrete round: gates + manager instead of the abstract pull
+
+In an honest network (every block of the universe valid — `AllValid` —, arbitrary forks) node
+`i`'s `syncLoop` iteration against node `j` is `honestRound`: history sample, `SendHeaders` from
+the first entry `j` recognises (found by `history_finds_ancestor`), the request split,
+`SendCheckpoint`/`SendV2Blocks`, the gates of C11, `AddBlocks`/`AddValidatedV2Blocks` of the
+minimal manager, both sides running the model. -/
+
+/-- **one real sync round against an honest peer is one abstract pull step**: the node's best
+chain becomes the peer's iff the peer's tip is sufficiently heavier than its own tip, otherwise
+it is unchanged; the node invariant (best chain parent-linked from genesis, applied, stored;
+stored blocks closed under parents) is kept. -/
+theorem honest_round_is_pull (U : Univ) (cfg : Cfg) (av : AllValid U cfg) (n : Node) (h : NodeOK U n)
+    (pb : List Nat) (hpb : IsChain U pb) (hlen : n.best.length ≤ 8388616) :
+    NodeOK U (honestRound U cfg n pb) ∧
+    (honestRound U cfg n pb).best = (if heavier U (pb.headD 0) n.tip then pb else n.best) :=
+  honestRound_spec av h hpb hlen
+
+/-- the concrete system (`runSchedC`: every step is a real round) and the abstract one (`runSched`:
+every step is a pull) agree on every node's tip at every time, for every schedule -/
+theorem concrete_refines_abstract (U : Univ) (cfg : Cfg) (av : AllValid U cfg) (hbd : HeightBound U)
+    (σ0 : Nat → Node) (h0 : ∀ x, NodeOK U (σ0 x)) (sched : Nat → Nat × Nat) (k x : Nat) :
+    NodeOK U (runSchedC U cfg σ0 sched k x) ∧
+    (runSchedC U cfg σ0 sched k x).tip = runSched U (fun y => (σ0 y).tip) sched k x :=
+  runSchedC_spec av hbd h0 sched k x
+
+/-- **`converge_decisive` for the concrete round function**: any number of honest nodes holding
+arbitrary best chains, any connected "syncs from" relation, every fair schedule of real rounds:
+if node `m`'s chain is sufficiently heavier than every other tip, there is a time after which
+every node's **best chain** is `m`'s chain, forever. -/
+theorem converge_decisive_concrete (U : Univ) (cfg : Cfg) (av : AllValid U cfg) (hbd : HeightBound U)
+    (N : Nat) (adj : Nat → Nat → Prop) (σ0 : Nat → Node) (h0 : ∀ x, NodeOK U (σ0 x)) (m : Nat)
+    (hdec : ∀ i, i < N → (σ0 i).tip ≠ (σ0 m).tip → heavier U (σ0 m).tip (σ0 i).tip = true)
+    (hconn : ∀ i, i < N → Reach adj N m i)
+    (sched : Nat → Nat × Nat) (hr : InRange N sched) (hfair : Fair adj sched) :
+    ∃ K, ∀ k, K ≤ k → ∀ i, i < N → (runSchedC U cfg σ0 sched k i).best = (σ0 m).best := by
+  obtain ⟨K, hK⟩ := converge_decisive U N adj (fun y => (σ0 y).tip) m hdec hconn sched hr hfair
+  refine ⟨K, fun k hk i hi => ?_⟩
+  obtain ⟨ok, ht⟩ := concrete_refines_abstract U cfg av hbd σ0 h0 sched k i
+  rw [hK k hk i hi] at ht
+  exact ok.best_eq (h0 m).chain (by rw [(h0 m).tip_head, ht])
+
 /-! ### non-vacuity -/
+
+/-- an honest universe: 0 ← 1 ← 2 and a fork 0 ← 3; require height 1 (so the second request of a
+round goes through the checkpoint path); (every other id is a sibling of 3); a node on [3, 0] syncing from a peer on [2, 1, 0] with
+one block per request adopts the peer's chain -/
+def honU : Univ := fun i =>
+  match i with
+  | 0 => ⟨0, 0, 0, 10, 10, true, true, true, true, false, false⟩
+  | 1 => ⟨0, 1, 1, 20, 10, true, true, true, true, true, false⟩
+  | 2 => ⟨1, 2, 2, 30, 10, true, true, true, true, true, false⟩
+  | n + 3 => ⟨0, n + 3, 1, 21, 10, true, true, true, true, true, false⟩
+
+/-- the hypotheses of the round theorems are satisfiable -/
+theorem honU_allValid : AllValid honU ⟨1, 1⟩ := by
+  have hcase : ∀ (P : Nat → Prop), P 0 → P 1 → P 2 → (∀ n, P (n + 3)) → ∀ b, P b := by
+    intro P h0 h1 h2 h3 b
+    match b with
+    | 0 => exact h0
+    | 1 => exact h1
+    | 2 => exact h2
+    | n + 3 => exact h3 n
+  refine ⟨rfl, rfl, ?_, ?_, ?_, ?_, ?_, ?_, ?_, ?_, by decide⟩
+  · exact hcase _ (by simp) (by intro _; rfl) (by intro _; rfl) (by intro n _; rfl)
+  · exact hcase _ rfl rfl rfl (by intro n; rfl)
+  · exact hcase _ rfl rfl rfl (by intro n; rfl)
+  · exact hcase _ rfl rfl rfl (by intro n; rfl)
+  · exact hcase _ rfl rfl rfl (by intro n; rfl)
+  · exact hcase _ rfl rfl rfl (by intro n; rfl)
+  · exact hcase _ (by intro h; exact absurd h (by decide)) (by intro h; exact absurd h (by decide)) (by intro _; rfl) (by intro n _; rfl)
+  · exact hcase _ (by simp) (by intro _; decide) (by intro _; decide) (by intro n _; show 21 > 10 + 10 / 5; decide)
+
+example : (honestRound honU ⟨1, 1⟩ ⟨[3, 0], [3, 0], [3, 0]⟩ [2, 1, 0]).best = [2, 1, 0] := by decide
+example : (honestRound honU ⟨1, 1⟩ ⟨[2, 1, 0], [2, 1, 0], [2, 1, 0]⟩ [3, 0]).best = [2, 1, 0] := by decide
+
 
 /-- a decisive instance: node 1's tip (block 2, work 40) is sufficiently heavier than node 0's
 (block 1, work 20, difficulty 10): every fair run converges to block 2 -/
